@@ -360,7 +360,7 @@ def _grid_cases():
 
 def plan(tier):
     if tier == 'quick':
-        return [{'n': 180, 'grid': i} for i in range(16)]
+        return [{'n': 500, 'grid': i} for i in range(16)]
     return [{'n': 4000, 'grid': i} for i in range(16)]
 
 
